@@ -81,7 +81,11 @@ func (c *Ctx) fsModel() *fsModel {
 			if !ok {
 				return
 			}
-			m.liftEffect(fn, call, nil, strings.TrimPrefix(name, "os."), n, 0)
+			op := strings.TrimPrefix(name, "os.")
+			if name == "os.OpenFile" {
+				op = openFileKind(call)
+			}
+			m.liftEffect(fn, call, nil, op, n, 0)
 		})
 	}
 	return m
@@ -238,6 +242,10 @@ func checkC11(c *Ctx) {
 				r.Bad("C11/ATOMIC/index", cons, site, "os.%s(mbox.indexPath) truncates the live index before the new content is written: a crash in between leaves an undecodable index, which fails every operation on the mailbox and aborts VisitMailboxes for the whole store", e.op)
 				continue
 			}
+		}
+		if e.op == "OpenFile:excl" && strings.HasPrefix(cls, "derived(index)") {
+			r.Bad("C11/ATOMIC/index", cons, site, "the temporary index is opened with O_EXCL: a temporary file left behind by a write that was interrupted (process killed between creating it and the rename) makes every later index write of that mailbox fail with 'file exists' — after a restart the mailbox accepts no delivery, mark or removal")
+			continue
 		}
 		if allowed[e.op][cls] {
 			r.Ok("C11/INVENTORY", cons, site, "classified")
